@@ -282,6 +282,24 @@ def run(facts, res):
                 res.violation("H4", "%s|index-key-not-content-derived" % b.path,
                               "%s inserts into the object index under a key (%s) that is neither digest_bytes of the "
                               "indexed slice nor the staged digest" % (b.path, fmt(key, 5)), b.loc(t.line))
+    # bulk form of the writer's insertion: `committed_objects.extend(index)` where the (digest, position) pairs were collected while
+    # serialising the stage map - the keys are the digests under which the objects were staged
+    from ..flows import flow_of as _fo4
+    for b in facts.repo_bodies():
+        for bi, t in b.calls():
+            if t.callee is None or t.callee.name != "extend" or len(t.args) < 2:
+                continue
+            fp, root = field_path(arg_term(b, t, 0))
+            if "committed_objects" not in fp:
+                continue
+            n4 += 1
+            src = _fo4(b).operand_sources(t.args[1])
+            from_stage = any(n_[0] == "pfield" and n_[2] == "stage" for n_ in src) or \
+                any(b.blocks[cb_].term.args and "stage" in field_path(arg_term(b, b.blocks[cb_].term, 0, 16))[0] for cb_ in _fo4(b).call_blocks(src))
+            res.instance("H4", "%s: index filled in bulk from pairs collected while serialising the stage map: %s" % (b.path, from_stage), b.loc(t.line))
+            if not from_stage:
+                res.violation("H4", "%s|index-key-not-content-derived" % b.path,
+                              "%s extends the object index with entries that do not come from the staged (digest -> object) map" % b.path, b.loc(t.line))
     res.floor("H4", "object-index insert sites", n4, 2)
 
     # ------------------------------------------------------------------ H6: damaged items are reported, never silently truncate the scan
@@ -294,6 +312,12 @@ def run(facts, res):
         if b is None:
             continue
         for fl in iters.find_flows(facts):
+            if fl.body is b and fl.listing and fl.consumer in ("for_each", "try_for_each", "try_fold", "fold") and \
+                    not (set(fl.chain) & {"take", "take_while", "map_while", "skip", "skip_while", "step_by", "filter", "find", "filter_map"}):
+                # pipeline form of the pack loop: these consumers visit every element, or stop at the first Err and hand that Err on
+                n6 += 1
+                res.instance("H6", "%s: the pack pipeline (%s) visits every listed pack or ends with the first error" % (name, fl.consumer), b.loc())
+                continue
             if fl.body is not b or fl.consumer != "next" or not fl.listing:
                 continue
             n6 += 1
@@ -314,7 +338,7 @@ def run(facts, res):
         if b is None:
             continue
         for fl in iters.find_flows(facts):
-            if fl.body is not b or fl.consumer not in ("next", "for_each", "try_for_each") or not fl.listing:
+            if fl.body is not b or fl.consumer not in ("next", "for_each", "try_for_each", "try_fold", "fold") or not fl.listing:
                 continue        # a `for` loop or a pipeline ending in for_each over the listing
             n6b += 1
             from ..conds import unaccepted
